@@ -90,6 +90,17 @@ var properties = map[string]*Property{
 			"that every function-creating closure marks its frame / frees it exactly once (typestate over func0ret0..func2ret0)",
 		},
 	},
+	"C07": {
+		ID:    "C07",
+		Title: "defer, panic and recover follow Go semantics in interpreted code",
+		Units: []Unit{
+			{Kind: "funcs", Pkg: "fast", Funcs: []string{"callRecover", "maybeRepanic", "pushDefer", "popDefer"}},
+		},
+		NotCovered: []string{
+			"the order of deferred calls, the function results (named results modified by deferred functions) and whether a panic escapes, for whole programs: compositions of the executor (reExecWithFlags and its rundefer literal are under contract for C12: their exits restore the bookkeeping), Comp.Defer, the function prologue and epilogue",
+			"defer of methods and builtins, defer inside loops (Comp.Defer), the value handed to recover when it is honoured and not nil (reflect conversion)",
+		},
+	},
 	"C12": {
 		ID:    "C12",
 		Title: "A panic escaping an evaluation at any point leaves later evaluations unaffected",
